@@ -154,7 +154,7 @@ class Quaternion(Object3d):
         :math:`\hat{\mathbf{n}} = (b, c, d)`.
         """
         axis = Vector3d(np.stack((self.b, self.c, self.d), axis=-1))
-        a_is_zero = self.a < -1e-6
+        a_is_zero = self.a < 0
         axis[a_is_zero] = -axis[a_is_zero]
         norm_is_zero = axis.norm == 0
         axis[norm_is_zero] = Vector3d.zvector() * np.sign(self.a[norm_is_zero])
